@@ -254,6 +254,12 @@ def cagrad(index, ctx, A, by_class):
         for r in res:
             if r.kind != "return" or not isinstance(r.value, TV):
                 continue
+            # the cone programme sees a full factor of the (normalised) Gramian: nothing selects a subset of the directions of its decomposition
+            cut = [e for e in r.events if e["kind"] == "sop" and e["sop"] in ("slice", "narrow", "topk", "index_select", "masked_select") and e["function"].endswith("_CAGradWeighting.forward")
+                   and e.get("axis") == "K"]
+            ctx.require(not cut, "R4", "CAGrad: the whole factorisation of the Gramian enters the cone programme", "no truncation of the decomposition",
+                        f"`{cut[0]['text'] if cut else ''}` keeps only part of the singular directions: for ill-conditioned matrices whose mean lies in a dropped direction the result is no longer "
+                        "at distance c·|g0| from the mean (and CAGrad(0) no longer equals the mean)", cut[0]["loc"] if cut else cls.loc(), nontrivial=False)
             adds = [e for e in r.events if e["kind"] == "op" and e["op"] == "add" and e["function"].endswith("_CAGradWeighting.forward")]
             step = [e for e in adds if (e.get("left_poly") == minv and "c" in e.get("right_origin", [])) or (e.get("right_poly") == minv and "c" in e.get("left_origin", []))]
             if r.value.deg == "Z":
@@ -279,6 +285,25 @@ def mgda(index, ctx, A, by_class):
         ctx.undecided("R5", "MGDA: Frank-Wolfe loop", f"expected one loop, found {len(loops_)}", fi.loc())
         return
     loop = loops_[0]
+    all_ups = [s for s in ast.walk(loop) if isinstance(s, ast.Assign) and isinstance(s.targets[0], ast.Name) and s.targets[0].id in names_read(s.value)]
+    carried = sorted({s.targets[0].id for s in all_ups})
+    # the iterate must not become an alias of a buffer that the loop overwrites in place (`alpha = e_t` with `e_t.zero_()` in the next iteration)
+    inplace = set()
+    for s2 in ast.walk(loop):
+        if isinstance(s2, ast.Call) and isinstance(s2.func, ast.Attribute) and s2.func.attr.endswith("_") and not s2.func.attr.startswith("_") and isinstance(s2.func.value, ast.Name):
+            inplace.add(s2.func.value.id)
+        if isinstance(s2, (ast.Assign, ast.AugAssign)):
+            for t in (s2.targets if isinstance(s2, ast.Assign) else [s2.target]):
+                if isinstance(t, ast.Subscript) and isinstance(t.value, ast.Name):
+                    inplace.add(t.value.id)
+    recreated = {s2.targets[0].id for s2 in ast.walk(loop) if isinstance(s2, ast.Assign) and isinstance(s2.targets[0], ast.Name) and isinstance(s2.value, ast.Call)}
+    for s2 in ast.walk(loop):
+        if isinstance(s2, ast.Assign) and isinstance(s2.targets[0], ast.Name) and s2.targets[0].id in carried and isinstance(s2.value, ast.Name) \
+                and s2.value.id in inplace and s2.value.id not in recreated:
+            ctx.violated("R5", f"MGDA: `{norm_text(s2)}` makes the iterate an alias of a reused buffer",
+                         f"`{s2.value.id}` is allocated outside the loop and overwritten in place on the next iteration, so the iterate `{s2.targets[0].id}` silently changes with it: "
+                         "the steps taken are no longer Frank-Wolfe steps and the result can be far longer than the mean", _loc(fi, s2))
+            return
     ups = [s for s in loop.body if isinstance(s, ast.Assign) and isinstance(s.targets[0], ast.Name) and s.targets[0].id in names_read(s.value)]
     if len(ups) != 1:
         ctx.undecided("R5", "MGDA: update", "no single self-referential update in the loop", _loc(fi, loop))
